@@ -1020,6 +1020,23 @@ static void do_op(char **t, int ntok)
 	} else if (!strcmp(op, "oprint")) {
 		NEED(2); OPT(t[1]);
 		do_print(NULL, opt, ntok > 2 ? atoi(t[2]) : 0, ntok > 2);
+	} else if (!strcmp(op, "roundtrip")) {
+		/* roundtrip <src secref> <dst ctx>: print src into memory, parse that text into dst */
+		char *buf = NULL;
+		size_t len = 0;
+		FILE *fp;
+		cfg_t *src;
+		struct ctx *dst;
+		NEED(3); SEC(t[1]); src = sec;
+		dst = ctx_of(t[2]);
+		if (!dst->cfg) { fprintf(out, "r roundtrip badref\n"); return; }
+		fp = open_memstream(&buf, &len);
+		if (!fp) die("open_memstream");
+		E(cfg_print(src, fp));
+		fclose(fp);
+		rc = E(cfg_parse_buf(dst->cfg, buf));
+		fprintf(out, "r roundtrip %d ", rc); enc_n(out, buf, len); fputc('\n', out);
+		free(buf);
 	} else if (!strcmp(op, "pffnames")) {
 		int k, i;
 		NEED(2); k = atoi(t[1]);
